@@ -91,3 +91,21 @@ def generate(rng, tier, seed):
                     if len(ls) > 1:
                         c.fail(f"on one object the key block length depends on earlier wraps / the key length within the mask {m0}: lengths {sorted(ls)}")
                 yield c
+    # headers so large that the masked block is near the 9999-character limit: for a fixed header and mask every key within
+    # the mask gives the same length - or every one of them is refused; never "the short keys still fit"
+    for ver, (bs, ksizes, ml) in VERS.items():
+        kbpk = rb(rng, ksizes[-1])
+        for alg in ("T", "A"):
+            m0 = eff_mask(alg, None, 0)
+            full = 16 + 2 * (((2 + m0) // bs + 1) * bs) + 2 * ml      # without optional blocks
+            for dl in range(9999 - full - 10 - 90, 9999 - full - 10 + 8, 1 if tier == "thorough" else 7):
+                c = Case(f"{ver}:{alg}:near-limit", {"data": dl})
+                c.key = (ver, alg, "near-limit", dl)
+                outcomes = {}
+                for kl in (0, 5, 6, 13, 14, 16, 22, m0):
+                    h = make_header(rng, ver, [("T0", "x" * dl)], alg=alg, reserved="00")
+                    w = call_impl("tr31.wrap", (kbpk, h, rb(rng, kl), None), stream="tr31")
+                    outcomes[kl] = len(w.value) if w.ok else w.err
+                if len(set(outcomes.values())) > 1:
+                    c.fail(f"near the 9999 limit the outcome depends on the key length within the mask: {outcomes}")
+                yield c
